@@ -2,10 +2,12 @@ import BareModel.Proto
 import BareModel.Text
 import BareModel.Scan
 import BareModel.ErrorMsg
+import BareModel.SyntaxJson
+import BareModel.ExprParse
 
 /-! Driver for C10 (and the C06 pieces delivered with it): ops `lines`, `classify`, `errmsg`, `charclass`. -/
 
-open PJson Text Scan
+open PJson Text Scan Syntax
 
 def strOf (cs : Chars) : PJson := .str (String.ofList cs)
 
@@ -44,6 +46,33 @@ def shapeToJson : Shape → PJson
   | .include url sys => mk [("kind", .str "include"), ("url", strOf url), ("system", .bool sys)]
   | .exprStmt => mk [("kind", .str "expr")]
 
+def nm (n : Name) : PJson := .str n.render
+
+/-- `Line` with parsed expressions (`Scan.classify ExprParse.parseExpr`) -/
+def lineToJson : Line → PJson
+  | .assign n e => mk [("kind", .str "assign"), ("name", nm n), ("expr", exprToJson e)]
+  | .funcBegin n args laa isAsync =>
+      mk [("kind", .str "function"), ("name", nm n), ("args", .arr (args.map nm)), ("lastArgArray", .bool laa),
+          ("async", .bool isAsync)]
+  | .funcEnd => mk [("kind", .str "endfunction")]
+  | .ifBegin c => mk [("kind", .str "if"), ("expr", exprToJson c)]
+  | .elif c => mk [("kind", .str "elif"), ("expr", exprToJson c)]
+  | .else_ => mk [("kind", .str "else")]
+  | .endif => mk [("kind", .str "endif")]
+  | .whileBegin c => mk [("kind", .str "while"), ("expr", exprToJson c)]
+  | .endwhile => mk [("kind", .str "endwhile")]
+  | .forBegin v i e => mk [("kind", .str "for"), ("value", nm v), ("index", ofOpt nm i), ("expr", exprToJson e)]
+  | .endfor => mk [("kind", .str "endfor")]
+  | .break_ => mk [("kind", .str "break")]
+  | .continue_ => mk [("kind", .str "continue")]
+  | .label n => mk [("kind", .str "label"), ("name", nm n)]
+  | .jump n none => mk [("kind", .str "jump"), ("name", nm n)]
+  | .jump n (some c) => mk [("kind", .str "jump"), ("name", nm n), ("expr", exprToJson c)]
+  | .ret none => mk [("kind", .str "return")]
+  | .ret (some e) => mk [("kind", .str "return"), ("expr", exprToJson e)]
+  | .include url sys => mk [("kind", .str "include"), ("url", .str url), ("system", .bool sys)]
+  | .exprStmt e => mk [("kind", .str "expr"), ("expr", exprToJson e)]
+
 /-- maximal ranges of code points in `[lo, hi)` satisfying `p` (surrogates excluded) -/
 def cpRanges (p : Char → Bool) (lo hi : Nat) : List PJson := Id.run do
   let mut out : Array PJson := #[]
@@ -66,6 +95,10 @@ def handleC10 (j : PJson) : PJson :=
       let s := logicalLinesSpecL phys
       mk ([("phys", .arr (phys.map strOf))] ++ llToJson m ++ [("specAgrees", .bool (m == s))])
   | "classify" => shapeToJson (shape (j.strD "line").toList)
+  | "classifyFull" =>
+      match Scan.classify ExprParse.parseExpr (j.strD "line") with
+      | .ok l => lineToJson l
+      | .error e => mk [("error", .str e.error), ("column", .num e.column)]
   | "errmsg" =>
       let f := ErrorMsg.format (j.strD "error") (j.strD "line") (j.intD "column" 1)
         ((j.get? "lineNumber").bind asInt?) ((j.get? "prefix").bind asStr?)
